@@ -550,23 +550,7 @@ func ruleC12(w *World, r *Report) {
 			okCond := strings.Contains(s, "enableHBTimer") || isTypeAssertOK(ifi.Cond) || isSelectIndexTest(ifi.Cond)
 			r.check(okCond, "R12.5", hn, "heartbeat answered without preconditions", w.Pos(ifi.Pos()), s, "the heartbeat handler branches on "+s+" (heartbeats must be answered before and after association)")
 		}
-		// hbReset signalled under enableHBTimer, non-blocking
-		sig := 0
-		allInstrs(hbHandler, func(i ssa.Instruction) {
-			if sel, ok := i.(*ssa.Select); ok {
-				for _, st := range sel.States {
-					if st.Dir == 1 && strings.HasSuffix(symOf(st.Chan).String(), "PFCPConn.hbReset") {
-						sig++
-						r.check(!sel.Blocking, "R12.5", hn, "hbReset signalled without blocking", w.Pos(sel.Pos()), "select with default", "the heartbeat handler blocks on hbReset")
-					}
-				}
-			}
-			if snd, ok := i.(*ssa.Send); ok && strings.HasSuffix(symOf(snd.Chan).String(), "PFCPConn.hbReset") {
-				sig++
-				r.bad("R12.5", hn, "hbReset signalled without blocking", w.Pos(snd.Pos()), "plain send on hbReset: once the buffer is full (no monitor draining it) the receive loop blocks and the heartbeat is never answered")
-			}
-		})
-		r.check(sig >= 1, "R12.5", hn, "peer heartbeat postpones the agent's own heartbeat", w.Pos(hbHandler.Pos()), "hbReset signalled", "the heartbeat handler no longer signals hbReset")
+		ruleC12HbSignal(w, r, hbHandler, "R12.5")
 		// monitor: the hbReset case resets the ticker with hbInterval
 		mn := w.FuncName(hbMon)
 		resetOK := false
@@ -1204,4 +1188,28 @@ func ruleC12More(w *World, r *Report) {
 		}
 		r.floor("R12.10 setConnectedStatus(true) in tryConnect", n, 1)
 	}
+}
+
+// ruleC12HbSignal: the heartbeat handler tells the monitor about the peer's heartbeat without ever waiting
+// for it: a select with default. A plain send blocks the receive loop of the association once the buffer is
+// full (nobody drains it before an association is accepted), and with it the read time-out that would end
+// the association (re-filed under C10: such an association is never forgotten).
+func ruleC12HbSignal(w *World, r *Report, hbHandler *ssa.Function, rule string) {
+	hn := w.FuncName(hbHandler)
+	sig := 0
+	allInstrs(hbHandler, func(i ssa.Instruction) {
+		if sel, ok := i.(*ssa.Select); ok {
+			for _, st := range sel.States {
+				if st.Dir == 1 && strings.HasSuffix(symOf(st.Chan).String(), "PFCPConn.hbReset") {
+					sig++
+					r.check(!sel.Blocking, rule, hn, "hbReset signalled without blocking", w.Pos(sel.Pos()), "select with default", "the heartbeat handler blocks on hbReset")
+				}
+			}
+		}
+		if snd, ok := i.(*ssa.Send); ok && strings.HasSuffix(symOf(snd.Chan).String(), "PFCPConn.hbReset") {
+			sig++
+			r.bad(rule, hn, "hbReset signalled without blocking", w.Pos(snd.Pos()), "plain send on hbReset: once the buffer is full (no monitor draining it) the receive loop blocks and the heartbeat is never answered")
+		}
+	})
+	r.check(sig >= 1, rule, hn, "peer heartbeat postpones the agent's own heartbeat", w.Pos(hbHandler.Pos()), "hbReset signalled", "the heartbeat handler no longer signals hbReset")
 }
